@@ -33,6 +33,7 @@ def run(ctx: Ctx):
     ctx.assumptions = ["element ids are distinct within a dimension"]
     valid_index_selection(ctx)
     valid_idxs_table(ctx)
+    response_edits(ctx)
     valid_elements_chain(ctx)
     nan_mapping(ctx)
     measure_presence(ctx)
@@ -121,6 +122,38 @@ def valid_index_selection(ctx: Ctx):
         "tuple((d.shape for d in [self[i] for i in self.dimension_order]))",
         "the reshape of the flat data uses the same dimension_order as the index grid (writer/reader agreement)",
     )
+
+
+def response_edits(ctx: Ctx):
+    """The two methods of Cube that EDIT a response (pad a single-column filter cube, give a numeric summary a rows
+    dimension) must keep every count with its row and keep the weighted and the unweighted counts apart:
+    * a payload list that is stored back (`result.counts`, `measures.count.data`) is derived from ITS OWN previous content -
+      a store of `measures.count.data` in a function that never reads it replaces the weighted counts by something else;
+    * no zip pairs a FILTERED sequence with a whole payload list (positions of the non-missing rows with all the counts)."""
+    from .. import indexspace as IS
+    from ..stmts import reachable_functions
+
+    if IS.zip_self_check() != (1, 0):
+        raise AnalysisError("zip-filter lint: the positive control is no longer recognised")
+    cube = ctx.repo.cls("cube.py", "Cube")
+    for meth in ("augment_response", "inflate"):
+        if ctx.repo.lookup(cube, meth) is None:
+            continue
+        fns = reachable_functions(ctx.repo, cube, meth)
+        where = f"cube.py::Cube.{meth}"
+        stores, loads = set(), set()
+        for fn in fns:
+            for n in ast.walk(fn):
+                if isinstance(n, ast.Subscript) and isinstance(n.slice, ast.Constant) and n.slice.value in ("counts", "data"):
+                    key = u(n)[u(n).index("["):] if "[" in u(n) else u(n)
+                    key = key[key.index("['result']"):] if "['result']" in key else key
+                    (stores if isinstance(n.ctx, ast.Store) else loads).add(key)
+        lost = sorted(k for k in stores if k not in loads)
+        ctx.ob("response-edit.sources", where, lost or f"stored payload lists {sorted(stores)} are each read in the same edit", "every payload list stored back is derived from its own content", not lost,
+               "a filter cube's WEIGHTED counts (measures.count.data) overwritten by the padded unweighted counts: the weighted partition reports unweighted numbers")
+        hits = [t for fn in fns for _l, t in IS.zip_filter_mismatch(fn)]
+        ctx.ob("response-edit.pairing", where, hits or "no zip of a filtered sequence with a whole payload list", "each count is paired with the element it belongs to", not hits,
+               "a missing element that is not the last one shifts every later count onto another row")
 
 
 def valid_idxs_table(ctx: Ctx):
